@@ -197,7 +197,7 @@ func c12Apply(w *world, st *c12State, s wlStep) {
 			return
 		}
 		n := w.api.injectFrames(s.A)
-		w.h("non-object frame (%s) on %d watch streams", []string{"Status 410", "Bookmark", "unknown type"}[s.A%3], n)
+		w.h("non-object frame (%s) on %d watch streams", []string{"Status 410", "Bookmark", "unknown type", "ERROR frame with an object payload"}[s.A%4], n)
 		st.forced["after-non-object-frame"] = true
 	case "reconnectWait":
 		if !w.rootReady {
